@@ -594,7 +594,24 @@ func execHTTPTransport(e *Env, p *TransportParams) {
 	rt.hosts["addr-peer-b"] = B
 	rt.hosts["addr-peer-a"] = A
 	e.OnTeardown(func() { A.Cancel(); B.Cancel() })
-	aToB := A.NewConnection("addr-peer-b")
+	aToBCount := &countingRW{inner: A.NewConnection("addr-peer-b")}
+	var aToB goat.RpcReadWriter = aToBCount
+	defer func() {
+		// a POST the peer did not answer with 200 did not deliver its envelope:
+		// the Write that made it must not have reported success
+		histMu.Lock()
+		rejected := 0
+		for _, c := range rt.Codes {
+			if c != 200 {
+				rejected++
+			}
+		}
+		okW, failedW := aToBCount.ok, aToBCount.failed
+		histMu.Unlock()
+		if rejected > failedW {
+			e.Violate(prop, "write-success-on-rejected-post", "http.Write", "%d POSTs were answered with a status other than 200 (envelope not delivered) but only %d Writes failed (%d reported success)", rejected, failedW, okW)
+		}
+	}()
 	getB := func() goat.RpcReadWriter {
 		histMu.Lock()
 		defer histMu.Unlock()
@@ -631,7 +648,13 @@ func execHTTPTransport(e *Env, p *TransportParams) {
 		if getB() == nil {
 			return
 		}
-		blockedOps(e, "http", getB(), nil)
+		if p.TickAt%2 == 0 {
+			blockedOps(e, "http", getB(), nil)
+		} else {
+			// nobody reads on B: A's Write (a POST that is answered only once the
+			// envelope was taken) is blocked, and must return once its context is done
+			blockedOps(e, "http", nil, aToB)
+		}
 	case 2:
 		// malformed requests straight into ServeHTTP
 		delivered := 0
@@ -840,6 +863,25 @@ func execHTTPTransport(e *Env, p *TransportParams) {
 }
 
 // lazyRW resolves the server-side connection once GoatOverHttp has announced it.
+// countingRW counts the outcomes of Writes (the HTTP transport's Write is one POST).
+type countingRW struct {
+	inner      goat.RpcReadWriter
+	ok, failed int
+}
+
+func (c *countingRW) Read(ctx context.Context) (*Rpc, error) { return c.inner.Read(ctx) }
+func (c *countingRW) Write(ctx context.Context, r *Rpc) error {
+	err := c.inner.Write(ctx, r)
+	histMu.Lock()
+	if err != nil {
+		c.failed++
+	} else {
+		c.ok++
+	}
+	histMu.Unlock()
+	return err
+}
+
 type lazyRW struct {
 	get   func() goat.RpcReadWriter
 	e     *Env
